@@ -14,11 +14,11 @@ CFG = dict(
          "and the whole output is compared with the Lean model. Non-trivial = at least one record was emitted; distinct by input line.",
     nontrivial=["records"],
     jobs=seeds(1, 3),
-    lean_files=["Trig", "Pipe", "PipeJudge", "C01", "C09", "Pipe1", "Pipe2", "Pipe3", "Pipe4", "Edge", "Level", "Auto", "Passes"],
+    lean_files=["Trig", "Pipe", "PipeJudge", "C01", "C09", "Pipe1", "Pipe2", "Pipe3", "Pipe4", "Edge", "Level", "Auto", "Passes", "NoCrash", "EmtSafe", "TrigIdx"],
     trusted_base=_PIPE_TB,
     assumptions=["blocks of one run carry contiguous frame numbers and one sample period (C03/C04 establish contiguity for the real sources)",
-                 "no-crash theorems: edge/level/auto passes (C01_no_crash_nonEMT: any buffer, any settings, 3 <= npre < nsamp) and edge-multi primaries across blocks "
-                 "(C08_no_oob); for secondary (group-trigger) records a crash is excluded only by the correspondence run (PANIC output = violation)"],
+                 "C01_no_crash assumes what a data source guarantees of its blocks (one segment per channel, equal lengths, consecutive non-negative frame numbers) "
+                 "and kink-fit shifts in {-1,0,+1}; requests are arbitrary"],
     timeout=dict(quick=900, thorough=3600),
 )
 MANIFEST = dict(
@@ -27,11 +27,12 @@ MANIFEST = dict(
          "its first sample) is preserved by every operation; every record the model publishes (primary, secondary, any trigger type) is the exact excerpt "
          "around its stated frame, with the time the block stamp assigns, the block's signedness and, outside edge-multi, the configured lengths "
          "(C01_block_exact, C01_records_exact, C01_run_exact); the run-time oracle chkRec accepts exactly such records (C01_oracle_sound); the edge/level/auto "
-         "passes never index out of range (C01_no_crash_nonEMT). The model is compared record-for-record with the real ProcessSegments pipeline on every run and "
+         "passes never index out of range (C01_no_crash_nonEMT), and NO operation sequence from the state PrepareRun leaves - ConfigureTriggers on any channels incl. "
+         "edge-multi, ConfigurePulseLengths, group-trigger edits, data blocks of any lengths - makes the model panic: every search read, primary cut, broker look-up "
+         "and secondary (group-trigger) cut stays inside the buffers (C01_no_crash, invariant SrcSafe, Lemmas/NoCrash). The model is compared record-for-record with the real ProcessSegments pipeline on every run and "
          "the same oracle judges the real records against the ground-truth stream.",
     note="Trusted: Lean 4.33 kernel (axioms propext, Classical.choice, Quot.sound only; audited every run); the hand-written model is tied to the Go code only by "
-         "differential testing with seeded generators (not a proof). Partial: 'never crashes' is proved for edge/level/auto triggering (here) and edge-multi primaries (C08_no_oob); for "
-         "secondary records it rests on the correspondence run (crash = violation). Decimation (unreachable from any API) is not modelled. Two crash defects found by "
+         "differential testing with seeded generators (not a proof). 'Never crashes' is proved for the whole source model incl. edge-multi and secondary records (C01_no_crash). Decimation (unreachable from any API) is not modelled. Two crash defects found by "
          "this check were repaired in /repo (5067219, fbc46c8).",
     technique="Lean 4 theorems (invariant + induction over operation histories) over an executable model; model tied to the Go code by a differential correspondence run",
 )
@@ -41,6 +42,9 @@ THEOREMS = [
     ("DastardV.Props.C01", "DastardV.C01.C01_run_exact"),
     ("DastardV.Props.C01", "DastardV.C01.C01_oracle_sound"),
     ("DastardV.Props.C01", "DastardV.C01.C01_no_crash_nonEMT"),
+    ("DastardV.Props.C01", "DastardV.C01.C01_no_crash"),
+    ("DastardV.Lemmas.NoCrash", "DastardV.Pipe.opBlock_safe"),
+    ("DastardV.Lemmas.NoCrash", "DastardV.Pipe.runOps_safe"),
     ("DastardV.Lemmas.Pipe1", "DastardV.Trig.cut_exact"),
     ("DastardV.Lemmas.Pipe1", "DastardV.Trig.append_rep"),
     ("DastardV.Lemmas.Pipe1", "DastardV.Trig.trim_rep"),
